@@ -76,6 +76,12 @@ class Obj:
         return o
 
 
+def opt_args(k):
+    """the extra positional arguments scipy.optimize passes to the objective (`args=` of minimize / root / least_squares ...)"""
+    extra = k.get("args", ())
+    return list(extra) if isinstance(extra, (tuple, list)) else [extra]
+
+
 class LazyIter:
     """a lazy iterator (iter(callable, sentinel), itertools.takewhile over one ...): `pull(I, node)` returns the next item or LazyIter.STOP.
     A for loop that leaves early does not consume the rest (e.g. a reader that stops at a section header)."""
@@ -1346,6 +1352,8 @@ class Interp:
                 return x ** y
             if isinstance(op, ast.FloorDiv):
                 return _sp.floor(x / y)
+            if isinstance(op, ast.Mod):
+                return _sp.Mod(x, y)
             self.err(node, f"operator {type(op).__name__} on symbolic terms")
         if type(a).__name__ == "Vec" or type(b).__name__ == "Vec":
             from .libsum import vec_binop
@@ -2264,6 +2272,23 @@ class Interp:
                     return LazyIter.STOP
                 return x
             return LazyIter(pull, "takewhile")
+        def b_accumulate(I, a, k, n):
+            fn = a[1] if len(a) > 1 else k.get("func")
+            items = list(I.iterate(a[0], n))
+            out = []
+            if "initial" in k and k["initial"] is not None:
+                acc = k["initial"]
+                out.append(acc)
+            elif items:
+                acc = items.pop(0)
+                out.append(acc)
+            else:
+                return []
+            for x in items:
+                acc = I.call_value(fn, [acc, x], {}, n) if fn is not None else I.binop(ast.Add(), acc, x, n)
+                out.append(acc)
+            return out
+        E["itertools.accumulate"] = b_accumulate
         E["itertools.takewhile"] = b_takewhile
         E["itertools.chain"] = lambda I, a, k, n: [x for part in a for x in I.iterate(part, n)]
         E["itertools.islice"] = lambda I, a, k, n: list(I.iterate(a[0], n))[slice(*[None if x is None else int(I.to_py(x, n)) for x in a[1:]])]
@@ -2286,7 +2311,21 @@ class Interp:
         E["builtins.print"] = lambda I, a, k, n: None
         E["builtins.type"] = b_type
         E["builtins.enumerate"] = lambda I, a, k, n: [(Num.const(i), x) for i, x in enumerate(I.iterate(a[0], n))]
-        E["builtins.zip"] = lambda I, a, k, n: list(zip(*[I.iterate(x, n) for x in a]))
+        def b_zip(I, a, k, n):
+            finite = [I.iterate(x, n) for x in a if not (isinstance(x, Obj) and x.kind == "Repeat")]
+            m = min((len(x) for x in finite), default=0)
+            if not finite and a:
+                I.err(n, "zip() of infinite iterators only")
+            cols = [[x.attrs["value"]] * m if (isinstance(x, Obj) and x.kind == "Repeat") else I.iterate(x, n) for x in a]
+            return list(zip(*cols))
+        E["builtins.zip"] = b_zip
+        # itertools.repeat(x[, n]) / functools.partial(f, *args, **kw)
+        E["itertools.repeat"] = lambda I, a, k, n: ([a[0]] * int(I.to_py(a[1], n)) if len(a) > 1 else Obj(kind="Repeat", label="repeat", attrs={"value": a[0]}))
+        E["functools.partial"] = lambda I, a, k, n: Obj(kind="Partial", label="partial", attrs={"func": a[0], "args": list(a[1:]), "kw": dict(k)})
+        self.libmeth[("Partial", "__call__")] = lambda I, v, a, k, n: I.call_value(v.attrs["func"], v.attrs["args"] + list(a), {**v.attrs["kw"], **k}, n)
+        self.libattr[("Partial", "func")] = lambda I, v, n: v.attrs["func"]
+        self.libattr[("Partial", "args")] = lambda I, v, n: tuple(v.attrs["args"])
+        self.libattr[("Partial", "keywords")] = lambda I, v, n: dict(v.attrs["kw"])
         E["builtins.abs"] = lambda I, a, k, n: (Num.const(abs(a[0].value())) if isinstance(a[0], Num) and a[0].is_const()
                                                 else Num.atom(f"abs({I.describe(a[0])})"))
         def b_round(I, a, k, n):
